@@ -27,7 +27,7 @@ ANCHORS = [
     "acnportal.acnsim.network.charging_network:ChargingNetwork.update_pilots",
 ]
 REQUIRED = ["runs_judged", "schedules_submitted", "empty_schedules", "schedules_beyond_horizon", "schedule_in_last_period_beyond_horizon",
-            "set_pilot_calls_checked", "held_pilots_checked", "runs_with_negative_pilots_cancelling_across_stations", "feasibility_queries_on_candidates_before_submitting", "runs_with_one_mapping_object_overwritten_in_place", "twin_runs", "malformed_unknown_station_rejected", "malformed_unequal_rejected", "resumed_after_rejection",
+            "set_pilot_calls_checked", "held_pilots_checked", "runs_with_negative_pilots_cancelling_across_stations", "plans_of_thousands_of_periods", "feasibility_queries_on_candidates_before_submitting", "runs_with_one_mapping_object_overwritten_in_place", "twin_runs", "malformed_unknown_station_rejected", "malformed_unequal_rejected", "resumed_after_rejection",
             "infeasible_schedule_warnings", "probe_ev_cells_checked", "regime:mr-None", "regime:mr-1", "regime:mr-k"]
 BUDGET_S = {"quick": 240, "thorough": 3000}
 
@@ -62,6 +62,13 @@ def cases(seed, tier):
                              "sessions": [{"id": "x0", "station": "s0", "arrival": 0, "departure": 3, "requested": 1e5, "est_dep": 3, "battery": big}],
                              "scheduler": {"kind": "scripted", "mr": mr, "seed": 7, "t0": 0, "p_empty": 0.0, "max_len": 2, "p_st": 1.0,
                                            "mode": "random", "long_p": 1.0}, "np_seed": 1}, "malform": None})
+    # plans of thousands of periods (a week of 1-minute periods is 10080): accepted whole, the matrix grows to hold them
+    for L in ([1025, 10100] if tier == "quick" else [1025, 4097, 8193, 10081, 10100, 20000, 44641]):
+        for at in (0, 2):
+            out.append({"desc": {"period": 1, "network": net, "recompute": [],
+                                 "sessions": [{"id": "x0", "station": "s0", "arrival": 0, "departure": 4, "requested": 1e5, "est_dep": 4, "battery": big}],
+                                 "scheduler": {"kind": "scripted", "mr": 1, "seed": 11 + L, "t0": 0, "mode": "one_long", "L": L, "at": at, "typed": L < 5000},
+                                 "np_seed": 1}, "malform": None, "long_plan": True})
     for i in range(n):
         d = gen.scenario(rng, sched="scripted", big=rng.random() < 0.5, long_p=rng.choice([0, 0.1, 0.5]),
                          max_len=rng.choice([1, 3, 5, 12]), p_empty=rng.choice([0.0, 0.15, 0.4]))
@@ -162,6 +169,8 @@ def run_case(case, obs):
     sim, evs, probe, sch, plog, box = _run(d, mal, True)
     if d.get("v2g"):
         obs.ev("runs_with_negative_pilots_cancelling_across_stations")
+    if case.get("long_plan"):
+        obs.ev("plans_of_thousands_of_periods")
     if getattr(sch, "probed", 0):
         obs.ev("feasibility_queries_on_candidates_before_submitting", sch.probed)
     wit = dict(scenario=d, malform=mal)
